@@ -149,12 +149,9 @@ theorem appendStr_view (h : Heap) (s : Slice) (v : Bytes) (hs : SliceOK h s) :
 
 /-! ### the invariant of one call -/
 
-/-- the default header map as the caller built it: slices backed by allocations, distinct keys
-do not share an allocation -/
+/-- the default header map as the caller built it: every slice is backed by an allocation -/
 structure WfDefaults (cfg : Cfg) (h : Heap) : Prop where
   ok : ∀ k s, hlookup cfg.hdr k = some s → SliceOK h s
-  distinct : ∀ k1 s1 k2 s2, hlookup cfg.hdr k1 = some s1 → hlookup cfg.hdr k2 = some s2 →
-    0 < s1.cap → 0 < s2.cap → s1.arr = s2.arr → k1 = k2
 
 /-- default values of a key as seen through heap `hS` -/
 def dview (cfg : Cfg) (hS : Heap) (k : Bytes) : List Bytes :=
@@ -162,38 +159,46 @@ def dview (cfg : Cfg) (hS : Heap) (k : Bytes) : List Bytes :=
   | some s0 => view hS s0
   | none => []
 
-/-- no default slice with spare capacity lives in array `a` -/
-def NotSpare (cfg : Cfg) (a : Nat) : Prop :=
-  ∀ k s0, hlookup cfg.hdr k = some s0 → s0.arr = a → ¬ s0.len < s0.cap
+/-- `h'` extends `h`: nothing that existed was touched -/
+def Extends (h h' : Heap) : Prop := h.length ≤ h'.length ∧ ∀ a, a < h.length → h'[a]? = h[a]?
+
+theorem extends_refl (h : Heap) : Extends h h := ⟨Nat.le_refl _, fun _ _ => rfl⟩
+
+theorem extends_trans {a b c : Heap} (h1 : Extends a b) (h2 : Extends b c) : Extends a c :=
+  ⟨Nat.le_trans h1.1 h2.1, fun i hi => by rw [h2.2 i (by have := h1.1; omega), h1.2 i hi]⟩
+
+theorem extends_append (h : Heap) (c : List Bytes) : Extends h (h ++ [c]) :=
+  ⟨by simp, fun a ha => List.getElem?_append_left ha⟩
+
+theorem sliceOK_extends {h h' : Heap} {s : Slice} (e : Extends h h') (hs : SliceOK h s) : SliceOK h' s := by
+  refine ⟨hs.1, ?_⟩
+  rcases hs.2 with h0 | ⟨cells, hc, hl⟩
+  · exact Or.inl h0
+  · right
+    have hlt : s.arr < h.length := by
+      rcases Nat.lt_or_ge s.arr h.length with h1 | h1
+      · exact h1
+      · rw [List.getElem?_eq_none h1] at hc; cases hc
+    exact ⟨cells, by rw [e.2 _ hlt, hc], hl⟩
+
+theorem view_extends {h h' : Heap} {s : Slice} (e : Extends h h') (hs : SliceOK h s) : view h' s = view h s := by
+  by_cases hc : 0 < s.cap
+  · exact view_congr (Or.inr (e.2 _ (arr_lt_of_ok hs hc)))
+  · exact view_congr (Or.inl (len_zero_of_cap_zero hs hc))
 
 /-- State of the header map `m` under construction and of the heap `h`, relative to the heap
-`hS` at the start of the call, after the header lines `done` have been added. -/
-structure CallInv (cfg : Cfg) (hS : Heap) (m : HMap) (h : Heap) (done : List (Bytes × Bytes)) : Prop where
-  grow : hS.length ≤ h.length
-  lens : ∀ a, a < hS.length → (h[a]?).map List.length = (hS[a]?).map List.length
-  frame : ∀ a, a < hS.length → NotSpare cfg a → h[a]? = hS[a]?
-  dviews : ∀ k s0, hlookup cfg.hdr k = some s0 → view h s0 = view hS s0
+`hS` at the start of the call: nothing older than the call was touched, every entry of the map is
+a nil slice or lives in an array allocated during this call, distinct keys in distinct arrays. -/
+structure CallInv (hS : Heap) (m : HMap) (h : Heap) : Prop where
+  ext : Extends hS h
   ok : ∀ k s, hlookup m k = some s → SliceOK h s
-  orig : ∀ k s, hlookup m k = some s → 0 < s.cap →
-    hS.length ≤ s.arr ∨ ∃ s0, hlookup cfg.hdr k = some s0 ∧ s.arr = s0.arr ∧ s.cap = s0.cap ∧ s0.len ≤ s.len
+  fresh : ∀ k s, hlookup m k = some s → 0 < s.cap → hS.length ≤ s.arr
   distinct : ∀ k1 s1 k2 s2, hlookup m k1 = some s1 → hlookup m k2 = some s2 →
     0 < s1.cap → 0 < s2.cap → s1.arr = s2.arr → k1 = k2
-  vals : ∀ k, view h ((hlookup m k).getD nilSlice) = dview cfg hS k ++ ownVals done k
 
-theorem callInv_init (cfg : Cfg) (hS : Heap) (wf : WfDefaults cfg hS) : CallInv cfg hS cfg.hdr hS [] where
-  grow := Nat.le_refl _
-  lens := fun _ _ => rfl
-  frame := fun _ _ _ => rfl
-  dviews := fun _ _ _ => rfl
-  ok := wf.ok
-  orig := fun k s hk _ => Or.inr ⟨s, hk, rfl, rfl, Nat.le_refl _⟩
-  distinct := wf.distinct
-  vals := by
-    intro k
-    simp only [dview, ownVals, List.filter_nil, List.map_nil, List.append_nil]
-    cases hlookup cfg.hdr k with
-    | none => simp [view, nilSlice]
-    | some s => rfl
+/-- per key: the default values (as they were when the call started) then the own values added so far -/
+def Vals (cfg : Cfg) (hS : Heap) (m : HMap) (h : Heap) (done : List (Bytes × Bytes)) : Prop :=
+  ∀ k, view h ((hlookup m k).getD nilSlice) = dview cfg hS k ++ ownVals done k
 
 theorem lookup_getD_ok {m : HMap} {h : Heap} (hok : ∀ k s, hlookup m k = some s → SliceOK h s) (k : Bytes) :
     SliceOK h ((hlookup m k).getD nilSlice) := by
@@ -201,58 +206,143 @@ theorem lookup_getD_ok {m : HMap} {h : Heap} (hok : ∀ k s, hlookup m k = some 
   | none => exact sliceOK_nil h
   | some s => exact hok k s hk
 
+/-! ### copying the defaults -/
+
+/-- every entry of the copied map is nil or a fresh array of this call; distinct entries live in
+distinct arrays; nothing older is touched -/
+theorem copyDefaults_inv : ∀ (d : HMap) (h : Heap),
+    Extends h (copyDefaults d h).2 ∧
+    (∀ k s, hlookup (copyDefaults d h).1 k = some s →
+      SliceOK (copyDefaults d h).2 s ∧ (0 < s.cap → h.length ≤ s.arr ∧ s.arr < (copyDefaults d h).2.length)) ∧
+    (∀ k1 s1 k2 s2, hlookup (copyDefaults d h).1 k1 = some s1 → hlookup (copyDefaults d h).1 k2 = some s2 →
+      0 < s1.cap → 0 < s2.cap → s1.arr = s2.arr → k1 = k2) := by
+  intro d
+  induction d with
+  | nil => intro h; exact ⟨extends_refl h, (by intro k s hk; cases hk), (by intro k1 s1 k2 s2 hk; cases hk)⟩
+  | cons e r ih =>
+    intro h
+    obtain ⟨k0, s0⟩ := e
+    simp only [copyDefaults]
+    by_cases hv : view h s0 = []
+    · simp only [hv, ↓reduceIte]
+      obtain ⟨e1, e2, e3⟩ := ih h
+      refine ⟨e1, ?_, ?_⟩
+      · intro k s hk
+        simp only [hlookup] at hk
+        split at hk
+        · cases hk; exact ⟨sliceOK_nil _, by intro hc; simp [nilSlice] at hc⟩
+        · exact e2 k s hk
+      · intro k1 s1 k2 s2 h1 h2 c1 c2 harr
+        simp only [hlookup] at h1 h2
+        split at h1
+        · cases h1; simp [nilSlice] at c1
+        · split at h2
+          · cases h2; simp [nilSlice] at c2
+          · exact e3 k1 s1 k2 s2 h1 h2 c1 c2 harr
+    · simp only [hv, ↓reduceIte]
+      obtain ⟨e1, e2, e3⟩ := ih (h ++ [view h s0])
+      have eh := extends_append h (view h s0)
+      have hcell : (copyDefaults r (h ++ [view h s0])).2[h.length]? = some (view h s0) := by
+        rw [e1.2 h.length (by simp)]; simp
+      refine ⟨extends_trans eh e1, ?_, ?_⟩
+      · intro k s hk
+        simp only [hlookup] at hk
+        split at hk
+        · cases hk
+          refine ⟨⟨Nat.le_refl _, Or.inr ⟨_, hcell, rfl⟩⟩, ?_⟩
+          intro _
+          have := e1.1; simp at this
+          exact ⟨Nat.le_refl _, by simp only; omega⟩
+        · obtain ⟨a, b⟩ := e2 k s hk
+          exact ⟨a, fun hc => by have := b hc; simp at this; omega⟩
+      · intro k1 s1 k2 s2 h1 h2 c1 c2 harr
+        simp only [hlookup] at h1 h2
+        split at h1 <;> split at h2
+        · rename_i a b; rw [← a, ← b]
+        · cases h1
+          have := (e2 k2 s2 h2).2 c2
+          simp at this harr; omega
+        · cases h2
+          have := (e2 k1 s1 h1).2 c1
+          simp at this harr; omega
+        · exact e3 k1 s1 k2 s2 h1 h2 c1 c2 harr
+
+theorem copyDefaults_callInv (d : HMap) (h : Heap) : CallInv h (copyDefaults d h).1 (copyDefaults d h).2 := by
+  obtain ⟨e1, e2, e3⟩ := copyDefaults_inv d h
+  exact ⟨e1, fun k s hk => (e2 k s hk).1, fun k s hk hc => ((e2 k s hk).2 hc).1, e3⟩
+
+/-- the copies show the default values; a key is present in the copy iff it is a default -/
+theorem copyDefaults_views (hS : Heap) (k : Bytes) : ∀ (d : HMap) (h : Heap), Extends hS h →
+    (hlookup d k = none → hlookup (copyDefaults d h).1 k = none) ∧
+    (∀ s0, hlookup d k = some s0 → SliceOK hS s0 → ∃ s, hlookup (copyDefaults d h).1 k = some s ∧
+      view (copyDefaults d h).2 s = view hS s0) := by
+  intro d
+  induction d with
+  | nil => intro h _; exact ⟨fun _ => rfl, by intro s0 hk; cases hk⟩
+  | cons e r ih =>
+    intro h eh
+    obtain ⟨k0, s0⟩ := e
+    simp only [copyDefaults]
+    by_cases hv : view h s0 = []
+    · simp only [hv, ↓reduceIte, hlookup]
+      by_cases hkk : k0 = k
+      · simp only [hkk, ↓reduceIte]
+        refine ⟨(by intro h0; cases h0), ?_⟩
+        intro s0' hs hok
+        cases hs
+        refine ⟨nilSlice, rfl, ?_⟩
+        rw [← view_extends eh hok, hv]; simp [view, nilSlice]
+      · simp only [hkk, ↓reduceIte]
+        exact ih h eh
+    · simp only [hv, ↓reduceIte, hlookup]
+      have eh1 : Extends hS (h ++ [view h s0]) := extends_trans eh (extends_append _ _)
+      by_cases hkk : k0 = k
+      · simp only [hkk, ↓reduceIte]
+        refine ⟨(by intro h0; cases h0), ?_⟩
+        intro s0' hs hok
+        cases hs
+        refine ⟨_, rfl, ?_⟩
+        have e1 := (copyDefaults_inv r (h ++ [view h s0])).1
+        have hcell : (copyDefaults r (h ++ [view h s0])).2[h.length]? = some (view h s0) := by
+          rw [e1.2 h.length (by simp)]; simp
+        have hvs : view h s0 = view hS s0 := view_extends eh hok
+        generalize view h s0 = vs at hcell hvs ⊢
+        show ((copyDefaults r (h ++ [vs])).2[h.length]?.getD []).take vs.length = view hS s0
+        rw [hcell, ← hvs]; simp
+      · simp only [hkk, ↓reduceIte]
+        exact ih _ eh1
+
+/-! ### one `append` -/
+
 /-- one `tgt.Header[k] = append(tgt.Header[k], v)` preserves the invariant -/
-theorem addHeader_inv (cfg : Cfg) (hS : Heap) (wf : WfDefaults cfg hS) (m : HMap) (h : Heap)
-    (done : List (Bytes × Bytes)) (k v : Bytes) (inv : CallInv cfg hS m h done) :
-    CallInv cfg hS (addHeader m h k v).1 (addHeader m h k v).2 (done ++ [(k, v)]) := by
+theorem addHeader_inv (hS : Heap) (m : HMap) (h : Heap) (k v : Bytes) (inv : CallInv hS m h) :
+    CallInv hS (addHeader m h k v).1 (addHeader m h k v).2 ∧
+    ∀ (cfg : Cfg) (done : List (Bytes × Bytes)), Vals cfg hS m h done →
+      Vals cfg hS (addHeader m h k v).1 (addHeader m h k v).2 (done ++ [(k, v)]) := by
   have hsok := lookup_getD_ok inv.ok k
   have hav := appendStr_view h ((hlookup m k).getD nilSlice) v hsok
   generalize hs : (hlookup m k).getD nilSlice = s at hsok hav
-  have hvals_k := inv.vals k
-  rw [hs] at hvals_k
-  -- lookups in the new map
   have hlk : ∀ k', hlookup (addHeader m h k v).1 k' = if k = k' then some (appendStr h s v).2 else hlookup m k' := by
     intro k'; simp only [addHeader, hs, hlookup_hinsert]
   have hheap : (addHeader m h k v).2 = (appendStr h s v).1 := by simp only [addHeader, hs]
   by_cases hlt : s.len < s.cap
-  · -- in place: s is a real entry of m
+  · -- in place: s is a real entry of m, in an array of this call
     have hmk : hlookup m k = some s := by
       cases hk : hlookup m k with
       | none => rw [hk] at hs; simp at hs; subst hs; simp [nilSlice] at hlt
       | some s' => rw [hk] at hs; simp at hs; rw [hs]
     have hcap : 0 < s.cap := by omega
+    have hfresh := inv.fresh k s hmk hcap
     have hnew : (appendStr h s v) = (h.modify s.arr (fun cells => cells.set s.len v), { s with len := s.len + 1 }) := by
       simp [appendStr, hlt]
     rw [hnew] at hlk hav hheap
     simp only at hlk hav hheap
-    -- is s a shared default slice?
-    have horig := inv.orig k s hmk hcap
-    refine ⟨?_, ?_, ?_, ?_, ?_, ?_, ?_, ?_⟩
-    · rw [hheap, List.length_modify]; exact inv.grow
-    · intro a ha
-      rw [hheap, ← inv.lens a ha]
-      by_cases he : s.arr = a
-      · subst he; rw [getElem?_modify_eq]; cases h[s.arr]? <;> simp
-      · rw [getElem?_modify_ne _ _ _ _ he]
-    · intro a ha hns
-      rw [hheap, ← inv.frame a ha hns]
-      apply getElem?_modify_ne
-      intro he
-      rcases horig with hfresh | ⟨s0, h0, e1, e2, e3⟩
-      · omega
-      · exact hns k s0 h0 (by omega) (by omega)
-    · intro k2 s2 hk2
-      rw [hheap, ← inv.dviews k2 s2 hk2]
-      by_cases he : s.arr = s2.arr
-      · by_cases hc2 : 0 < s2.cap
-        · rcases horig with hfresh | ⟨s0, h0, e1, e2, e3⟩
-          · have := arr_lt_of_ok (wf.ok k2 s2 hk2) hc2; omega
-          · have hkk : k = k2 := wf.distinct k s0 k2 s2 h0 hk2 (by omega) hc2 (by omega)
-            subst hkk
-            rw [h0] at hk2; cases hk2
-            rw [he]; exact view_modify_below _ _ e3
-        · exact view_congr (Or.inl (len_zero_of_cap_zero (wf.ok k2 s2 hk2) hc2))
-      · exact view_modify_other _ _ he
+    refine ⟨⟨?_, ?_, ?_, ?_⟩, ?_⟩
+    · rw [hheap]
+      refine ⟨by rw [List.length_modify]; exact inv.ext.1, ?_⟩
+      intro a ha
+      rw [← inv.ext.2 a ha]
+      exact getElem?_modify_ne _ _ _ _ (by omega)
     · intro k' s' hk'
       rw [hlk] at hk'
       rw [hheap]
@@ -262,11 +352,8 @@ theorem addHeader_inv (cfg : Cfg) (hS : Heap) (wf : WfDefaults cfg hS) (m : HMap
     · intro k' s' hk' hc'
       rw [hlk] at hk'
       split at hk'
-      · rename_i hkk; subst hkk; cases hk'
-        rcases horig with hfresh | ⟨s0, h0, e1, e2, e3⟩
-        · exact Or.inl hfresh
-        · exact Or.inr ⟨s0, h0, e1, e2, by simp; omega⟩
-      · exact inv.orig k' s' hk' hc'
+      · cases hk'; exact hfresh
+      · exact inv.fresh k' s' hk' hc'
     · intro k1 s1 k2 s2 h1 h2 c1 c2 harr
       rw [hlk] at h1 h2
       split at h1 <;> split at h2
@@ -276,7 +363,9 @@ theorem addHeader_inv (cfg : Cfg) (hS : Heap) (wf : WfDefaults cfg hS) (m : HMap
       · rename_i a b; cases h2; subst b
         exact inv.distinct k1 s1 k s h1 hmk c1 hcap harr
       · exact inv.distinct k1 s1 k2 s2 h1 h2 c1 c2 harr
-    · intro k'
+    · intro cfg done hvals k'
+      have hvals_k := hvals k
+      rw [hs] at hvals_k
       rw [hlk, hheap, ownVals_append]
       by_cases hkk : k = k'
       · subst hkk
@@ -285,7 +374,7 @@ theorem addHeader_inv (cfg : Cfg) (hS : Heap) (wf : WfDefaults cfg hS) (m : HMap
         simp [ownVals]
       · simp only [hkk, ↓reduceIte]
         have hov : ownVals [(k, v)] k' = [] := by simp [ownVals, hkk]
-        rw [hov, List.append_nil, ← inv.vals k']
+        rw [hov, List.append_nil, ← hvals k']
         cases hk' : hlookup m k' with
         | none => simp [view, nilSlice]
         | some s' =>
@@ -301,18 +390,8 @@ theorem addHeader_inv (cfg : Cfg) (hS : Heap) (wf : WfDefaults cfg hS) (m : HMap
       simp [appendStr, hlt]
     rw [hnew] at hlk hav hheap
     simp only at hlk hav hheap
-    refine ⟨?_, ?_, ?_, ?_, ?_, ?_, ?_, ?_⟩
-    · rw [hheap]; have := inv.grow; simp; omega
-    · intro a ha
-      rw [hheap, ← inv.lens a ha, List.getElem?_append_left (by have := inv.grow; omega)]
-    · intro a ha hns
-      rw [hheap, ← inv.frame a ha hns, List.getElem?_append_left (by have := inv.grow; omega)]
-    · intro k2 s2 hk2
-      rw [hheap, ← inv.dviews k2 s2 hk2]
-      by_cases hc2 : 0 < s2.cap
-      · have := arr_lt_of_ok (wf.ok k2 s2 hk2) hc2
-        exact view_congr (Or.inr (List.getElem?_append_left (by have := inv.grow; omega)))
-      · exact view_congr (Or.inl (len_zero_of_cap_zero (wf.ok k2 s2 hk2) hc2))
+    refine ⟨⟨?_, ?_, ?_, ?_⟩, ?_⟩
+    · rw [hheap]; exact extends_trans inv.ext (extends_append _ _)
     · intro k' s' hk'
       rw [hlk] at hk'
       rw [hheap]
@@ -322,8 +401,8 @@ theorem addHeader_inv (cfg : Cfg) (hS : Heap) (wf : WfDefaults cfg hS) (m : HMap
     · intro k' s' hk' hc'
       rw [hlk] at hk'
       split at hk'
-      · cases hk'; exact Or.inl inv.grow
-      · exact inv.orig k' s' hk' hc'
+      · cases hk'; exact inv.ext.1
+      · exact inv.fresh k' s' hk' hc'
     · intro k1 s1 k2 s2 h1 h2 c1 c2 harr
       rw [hlk] at h1 h2
       split at h1 <;> split at h2
@@ -335,7 +414,9 @@ theorem addHeader_inv (cfg : Cfg) (hS : Heap) (wf : WfDefaults cfg hS) (m : HMap
         have := arr_lt_of_ok (inv.ok k1 s1 h1) c1
         simp at harr; omega
       · exact inv.distinct k1 s1 k2 s2 h1 h2 c1 c2 harr
-    · intro k'
+    · intro cfg done hvals k'
+      have hvals_k := hvals k
+      rw [hs] at hvals_k
       rw [hlk, hheap, ownVals_append]
       by_cases hkk : k = k'
       · subst hkk
@@ -344,9 +425,8 @@ theorem addHeader_inv (cfg : Cfg) (hS : Heap) (wf : WfDefaults cfg hS) (m : HMap
         simp [ownVals]
       · simp only [hkk, ↓reduceIte]
         have hov : ownVals [(k, v)] k' = [] := by simp [ownVals, hkk]
-        rw [hov, List.append_nil, ← inv.vals k']
+        rw [hov, List.append_nil, ← hvals k']
         exact view_append _ (lookup_getD_ok inv.ok k')
-
 
 /-! ### a whole call is a fold of `addHeader` over the header lines it parsed -/
 
@@ -354,22 +434,29 @@ def applyOwn (m : HMap) (h : Heap) : List (Bytes × Bytes) → HMap × Heap
   | [] => (m, h)
   | (k, v) :: r => applyOwn (addHeader m h k v).1 (addHeader m h k v).2 r
 
+theorem applyOwn_inv (hS : Heap) (own : List (Bytes × Bytes)) :
+    ∀ (m : HMap) (h : Heap), CallInv hS m h →
+      CallInv hS (applyOwn m h own).1 (applyOwn m h own).2 ∧
+      ∀ (cfg : Cfg) (done : List (Bytes × Bytes)), Vals cfg hS m h done →
+        Vals cfg hS (applyOwn m h own).1 (applyOwn m h own).2 (done ++ own) := by
+  induction own with
+  | nil => intro m h inv; exact ⟨inv, fun cfg done hv => by simpa [applyOwn] using hv⟩
+  | cons e r ih =>
+    intro m h inv
+    obtain ⟨k, v⟩ := e
+    obtain ⟨i1, v1⟩ := addHeader_inv hS m h k v inv
+    obtain ⟨i2, v2⟩ := ih _ _ i1
+    refine ⟨i2, ?_⟩
+    intro cfg done hv
+    have := v2 cfg (done ++ [(k, v)]) (v1 cfg done hv)
+    simpa [applyOwn] using this
+
+
 theorem applyOwn_append (m : HMap) (h : Heap) (a b : List (Bytes × Bytes)) :
     applyOwn m h (a ++ b) = applyOwn (applyOwn m h a).1 (applyOwn m h a).2 b := by
   induction a generalizing m h with
   | nil => rfl
   | cons e r ih => obtain ⟨k, v⟩ := e; simp only [List.cons_append, applyOwn, ih]
-
-theorem applyOwn_inv (cfg : Cfg) (hS : Heap) (wf : WfDefaults cfg hS) (own : List (Bytes × Bytes)) :
-    ∀ (m : HMap) (h : Heap) (done : List (Bytes × Bytes)), CallInv cfg hS m h done →
-      CallInv cfg hS (applyOwn m h own).1 (applyOwn m h own).2 (done ++ own) := by
-  induction own with
-  | nil => intro m h done inv; simpa [applyOwn] using inv
-  | cons e r ih =>
-    intro m h done inv
-    obtain ⟨k, v⟩ := e
-    have := ih _ _ _ (addHeader_inv cfg hS wf m h done k v inv)
-    simpa [applyOwn] using this
 
 theorem headerStep_stop {cfg : Cfg} {line : Bytes} {tgt tgt' : Target} {h h' : Heap} {e : Option Nat}
     (hs : headerStep cfg line tgt h = .stop e tgt' h') :
@@ -431,8 +518,8 @@ theorem headerL_fold (cfg : Cfg) : ∀ (ls : List Bytes) (tgt : Target) (h : Hea
       · refine ⟨(k, v) :: own, ?_, by simp only; rw [o2, e1], by simp only; rw [o3, e2]⟩
         simp only [applyOwn]; rw [o1, a, b]
 
-theorem requestLine_header {cfg : Cfg} {line : Bytes} {tgt : Target} (h : requestLine cfg line = .ok tgt) :
-    tgt.header = cfg.hdr ∧ tgt.body = cfg.body := by
+theorem requestLine_header {cfg : Cfg} {line : Bytes} {hdr : HMap} {tgt : Target} (h : requestLine cfg line hdr = .ok tgt) :
+    tgt.header = hdr ∧ tgt.body = cfg.body := by
   unfold requestLine at h
   split at h
   · cases h
@@ -442,27 +529,30 @@ theorem requestLine_header {cfg : Cfg} {line : Bytes} {tgt : Target} (h : reques
       · cases h
       · cases h; exact ⟨rfl, rfl⟩
 
-/-- the heap effect of a call is a fold over the header lines it parsed; a returned target
-carries the resulting map -/
+/-- the heap effect of a call that got past the skip loop: the defaults are copied, then the
+parsed header lines are added to the copy; a returned target carries the resulting map. A call
+that reports exhaustion leaves the heap alone. -/
 theorem callL_fold (cfg : Cfg) (ls : List Bytes) (h : Heap) :
-    ∃ own, (callL cfg ls h).2.2 = (applyOwn cfg.hdr h own).2 ∧
-      ∀ t, (callL cfg ls h).1 = .ok t → t.header = (applyOwn cfg.hdr h own).1 := by
+    ((callL cfg ls h).2.2 = h ∧ ∀ t, (callL cfg ls h).1 ≠ .ok t) ∨
+    ∃ own, (callL cfg ls h).2.2 = (applyOwn (copyDefaults cfg.hdr h).1 (copyDefaults cfg.hdr h).2 own).2 ∧
+      ∀ t, (callL cfg ls h).1 = .ok t → t.header = (applyOwn (copyDefaults cfg.hdr h).1 (copyDefaults cfg.hdr h).2 own).1 := by
   unfold callL
   cases skipL ls with
-  | none => exact ⟨[], rfl, by intro t ht; cases ht⟩
+  | none => exact Or.inl ⟨rfl, by intro t ht; cases ht⟩
   | some lr =>
     obtain ⟨line, r⟩ := lr
+    right
     simp only
-    cases hrq : requestLine cfg line with
+    cases hrq : requestLine cfg line (copyDefaults cfg.hdr h).1 with
     | error e => exact ⟨[], rfl, by intro t ht; cases ht⟩
     | ok tgt =>
       have hh := (requestLine_header hrq).1
       simp only
       split
       · exact ⟨[], rfl, by intro t ht; cases ht; exact hh⟩
-      · obtain ⟨own, o1, _, _⟩ := headerL_fold cfg r tgt h
+      · obtain ⟨own, o1, _, _⟩ := headerL_fold cfg (peekL r []).2 tgt (copyDefaults cfg.hdr h).2
         rw [hh] at o1
-        generalize headerL cfg r tgt h = res at o1
+        generalize headerL cfg (peekL r []).2 tgt (copyDefaults cfg.hdr h).2 = res at o1
         obtain ⟨e, r3, t3, h3⟩ := res
         simp only at o1
         cases e with
@@ -476,100 +566,54 @@ theorem callL_fold (cfg : Cfg) (ls : List Bytes) (h : Heap) :
 
 /-! ### consequences for one call and for sequences of calls -/
 
-/-- every default slice is full: `len = cap` -/
-def FullDefaults (cfg : Cfg) : Prop := ∀ k s, hlookup cfg.hdr k = some s → s.len = s.cap
+/-- **Frame**: a call touches nothing that existed before it, whatever the input and the
+defaults; the slices of a returned target are well formed in the heap after the call. -/
+theorem callL_frame (cfg : Cfg) (ls : List Bytes) (h : Heap) :
+    Extends h (callL cfg ls h).2.2 ∧
+    ∀ t, (callL cfg ls h).1 = .ok t → ∀ k s, hlookup t.header k = some s → SliceOK (callL cfg ls h).2.2 s := by
+  rcases callL_fold cfg ls h with ⟨h1, h2⟩ | ⟨own, o1, o2⟩
+  · rw [h1]; exact ⟨extends_refl h, fun t ht => absurd ht (h2 t)⟩
+  · have inv := (applyOwn_inv h own _ _ (copyDefaults_callInv cfg.hdr h)).1
+    rw [o1]
+    refine ⟨inv.ext, ?_⟩
+    intro t ht k s hk
+    rw [o2 t ht] at hk
+    exact inv.ok k s hk
 
-theorem sliceOK_of_lens {hS h : Heap} {s : Slice} (hs : SliceOK hS s)
-    (lens : ∀ a, a < hS.length → (h[a]?).map List.length = (hS[a]?).map List.length) : SliceOK h s := by
-  refine ⟨hs.1, ?_⟩
-  rcases hs.2 with h0 | ⟨cells, hc, hl⟩
-  · exact Or.inl h0
-  · right
-    have hlt : s.arr < hS.length := by
-      rcases Nat.lt_or_ge s.arr hS.length with h1 | h1
-      · exact h1
-      · rw [List.getElem?_eq_none h1] at hc; cases hc
-    have := lens s.arr hlt
-    rw [hc] at this
-    cases hh : h[s.arr]? with
-    | none => rw [hh] at this; cases this
-    | some c' => rw [hh] at this; simp at this; exact ⟨c', rfl, by omega⟩
-
-structure CallFacts (cfg : Cfg) (h : Heap) (res : Outcome Target × List Bytes × Heap) : Prop where
-  wf : WfDefaults cfg res.2.2
-  dviews : ∀ k s0, hlookup cfg.hdr k = some s0 → view res.2.2 s0 = view h s0
-  keep : ∀ s, SliceOK h s → SliceOK res.2.2 s
-  frame : ∀ s, SliceOK h s → (0 < s.cap → NotSpare cfg s.arr) → view res.2.2 s = view h s
-  merged : ∀ t, res.1 = .ok t → ∃ own, (∀ k s, hlookup t.header k = some s → SliceOK res.2.2 s) ∧
-    ∀ k, view res.2.2 ((hlookup t.header k).getD nilSlice) = dview cfg h k ++ ownVals own k
-
-theorem callL_facts (cfg : Cfg) (ls : List Bytes) (h : Heap) (wf : WfDefaults cfg h) :
-    CallFacts cfg h (callL cfg ls h) := by
-  obtain ⟨own, o1, o2⟩ := callL_fold cfg ls h
-  have inv := applyOwn_inv cfg h wf own cfg.hdr h [] (callInv_init cfg h wf)
-  rw [← o1] at inv
-  refine ⟨⟨?_, wf.distinct⟩, inv.dviews, ?_, ?_, ?_⟩
-  · intro k s hk; exact sliceOK_of_lens (wf.ok k s hk) inv.lens
-  · intro s hs; exact sliceOK_of_lens hs inv.lens
-  · intro s hs hns
-    by_cases hc : 0 < s.cap
-    · exact view_congr (Or.inr (inv.frame s.arr (arr_lt_of_ok hs hc) (hns hc)))
-    · exact view_congr (Or.inl (len_zero_of_cap_zero hs hc))
-  · intro t ht
-    have := o2 t ht
-    refine ⟨own, ?_, ?_⟩
-    · intro k s hk; rw [this] at hk; exact inv.ok k s hk
-    · intro k; rw [this]; simpa using inv.vals k
-
-theorem notSpare_of_full {cfg : Cfg} (full : FullDefaults cfg) (a : Nat) : NotSpare cfg a := by
-  intro k s0 hk _ hlt
-  have := full k s0 hk; omega
-
-/-- over any number of further calls: the defaults keep their values; with full default
-slices every well-formed slice (hence every target returned earlier) keeps its view -/
-theorem callsL_facts (cfg : Cfg) : ∀ (n : Nat) (ls : List Bytes) (h : Heap), WfDefaults cfg h →
-    WfDefaults cfg (callsL cfg n ls h).2.2 ∧
-    (∀ k s0, hlookup cfg.hdr k = some s0 → view (callsL cfg n ls h).2.2 s0 = view h s0) ∧
-    (∀ s, SliceOK h s → SliceOK (callsL cfg n ls h).2.2 s) ∧
-    (FullDefaults cfg → ∀ s, SliceOK h s → view (callsL cfg n ls h).2.2 s = view h s) := by
+theorem callsL_frame (cfg : Cfg) : ∀ (n : Nat) (ls : List Bytes) (h : Heap), Extends h (callsL cfg n ls h).2.2 := by
   intro n
   induction n with
-  | zero => intro ls h wf; exact ⟨wf, fun _ _ _ => rfl, fun _ hs => hs, fun _ _ _ => rfl⟩
+  | zero => intro ls h; exact extends_refl h
   | succ n ih =>
-    intro ls h wf
-    have f := callL_facts cfg ls h wf
-    obtain ⟨w2, d2, k2, s2⟩ := ih (callL cfg ls h).2.1 (callL cfg ls h).2.2 f.wf
+    intro ls h
     simp only [callsL]
-    refine ⟨w2, ?_, ?_, ?_⟩
-    · intro k s0 hk; rw [d2 k s0 hk, f.dviews k s0 hk]
-    · intro s hs; exact k2 s (f.keep s hs)
-    · intro full s hs
-      rw [s2 full s (f.keep s hs), f.frame s hs (fun _ => notSpare_of_full full _)]
-
+    exact extends_trans (callL_frame cfg ls h).1 (ih _ _)
 
 /-- every target returned by any of `n` calls has, in the final heap, the view it had right
-after its own call — provided no default slice has spare capacity -/
-theorem callsL_stable (cfg : Cfg) (full : FullDefaults cfg) : ∀ (n : Nat) (ls : List Bytes) (h : Heap), WfDefaults cfg h →
+after its own call — for every input and every default header map -/
+theorem callsL_stable (cfg : Cfg) : ∀ (n : Nat) (ls : List Bytes) (h : Heap),
     ∀ r ∈ (callsL cfg n ls h).1, ∀ t, r.1 = .ok t → ∀ k s, hlookup t.header k = some s →
       SliceOK r.2 s ∧ view (callsL cfg n ls h).2.2 s = view r.2 s := by
   intro n
   induction n with
-  | zero => intro ls h _ r hr; simp [callsL] at hr
+  | zero => intro ls h r hr; simp [callsL] at hr
   | succ n ih =>
-    intro ls h wf r hr t ht k s hk
-    have f := callL_facts cfg ls h wf
+    intro ls h r hr t ht k s hk
+    have f := callL_frame cfg ls h
     simp only [callsL] at hr ⊢
     simp only [List.mem_cons] at hr
     rcases hr with rfl | hr
-    · obtain ⟨own, m1, _⟩ := f.merged t ht
-      have hok := m1 k s hk
-      exact ⟨hok, (callsL_facts cfg n _ _ f.wf).2.2.2 full s hok⟩
-    · exact ih _ _ f.wf r hr t ht k s hk
+    · have hok := f.2 t ht k s hk
+      exact ⟨hok, view_extends (callsL_frame cfg n _ _) hok⟩
+    · exact ih _ _ r hr t ht k s hk
 
-/-- the defaults keep their values over any calls (spare capacity or not) -/
+/-- the defaults keep their values over any calls -/
 theorem callsL_defaults (cfg : Cfg) (n : Nat) (ls : List Bytes) (h : Heap) (wf : WfDefaults cfg h) :
     ∀ k s0, hlookup cfg.hdr k = some s0 → view (callsL cfg n ls h).2.2 s0 = view h s0 :=
-  (callsL_facts cfg n ls h wf).2.1
+  fun k s0 hk => view_extends (callsL_frame cfg n ls h) (wf.ok k s0 hk)
+
+theorem wf_extends {cfg : Cfg} {h h' : Heap} (e : Extends h h') (wf : WfDefaults cfg h) : WfDefaults cfg h' :=
+  ⟨fun k s hk => sliceOK_extends e (wf.ok k s hk)⟩
 
 /-! ### which keys a built header map has -/
 
@@ -589,31 +633,46 @@ theorem applyOwn_lookup_isSome (own : List (Bytes × Bytes)) : ∀ (m : HMap) (h
     · subst hkk; simp [ownVals]
     · simp [hkk, ownVals]
 
+/-- the header map a call builds from the heap `h`: copy the defaults, add the lines `own` -/
+def built (cfg : Cfg) (h : Heap) (own : List (Bytes × Bytes)) : HMap × Heap :=
+  applyOwn (copyDefaults cfg.hdr h).1 (copyDefaults cfg.hdr h).2 own
+
 /-- **Merge semantics** of one decoded block: in the heap right after the call, the value list of
 every key is the default values (as they were before the call) followed by the block's own
 values in file order; a key is present iff it has a default or an own value. -/
-theorem applyOwn_merge (cfg : Cfg) (h : Heap) (wf : WfDefaults cfg h) (own : List (Bytes × Bytes)) (k : Bytes) :
-    (hlookup (applyOwn cfg.hdr h own).1 k).map (view (applyOwn cfg.hdr h own).2) =
+theorem built_merge (cfg : Cfg) (h : Heap) (wf : WfDefaults cfg h) (own : List (Bytes × Bytes)) (k : Bytes) :
+    (hlookup (built cfg h own).1 k).map (view (built cfg h own).2) =
       match (hlookup cfg.hdr k).map (view h), ownVals own k with
       | none, [] => none
       | none, vs => some vs
       | some ds, vs => some (ds ++ vs) := by
-  have inv := applyOwn_inv cfg h wf own cfg.hdr h [] (callInv_init cfg h wf)
-  have hv := inv.vals k
-  have hs := applyOwn_lookup_isSome own cfg.hdr h k
+  have hcv := copyDefaults_views h k cfg.hdr h (extends_refl h)
+  have v0 : Vals cfg h (copyDefaults cfg.hdr h).1 (copyDefaults cfg.hdr h).2 [] := by
+    intro k'
+    have hc := copyDefaults_views h k' cfg.hdr h (extends_refl h)
+    simp only [dview, ownVals, List.filter_nil, List.map_nil, List.append_nil]
+    cases hd : hlookup cfg.hdr k' with
+    | none => rw [hc.1 hd]; simp [view, nilSlice]
+    | some s0 =>
+      obtain ⟨s, h1, h2⟩ := hc.2 s0 hd (wf.ok k' s0 hd)
+      rw [h1]; exact h2
+  have hv := (applyOwn_inv h own _ _ (copyDefaults_callInv cfg.hdr h)).2 cfg [] v0 k
+  have hs := applyOwn_lookup_isSome own (copyDefaults cfg.hdr h).1 (copyDefaults cfg.hdr h).2 k
   simp only [List.nil_append] at hv
+  simp only [built]
   cases hd : hlookup cfg.hdr k with
   | some s0 =>
-    simp only [hd, Option.isSome_some, Bool.true_or] at hs
-    cases hl : hlookup (applyOwn cfg.hdr h own).1 k with
+    obtain ⟨s, h1, _⟩ := hcv.2 s0 hd (wf.ok k s0 hd)
+    simp only [h1, Option.isSome_some, Bool.true_or] at hs
+    cases hl : hlookup (applyOwn (copyDefaults cfg.hdr h).1 (copyDefaults cfg.hdr h).2 own).1 k with
     | none => rw [hl] at hs; cases hs
-    | some s =>
+    | some s' =>
       rw [hl] at hv
       simp only [Option.getD_some, dview, hd] at hv
       simp only [Option.map_some, hv]
   | none =>
-    simp only [hd, Option.isSome_none, Bool.false_or] at hs
-    cases hl : hlookup (applyOwn cfg.hdr h own).1 k with
+    simp only [hcv.1 hd, Option.isSome_none, Bool.false_or] at hs
+    cases hl : hlookup (applyOwn (copyDefaults cfg.hdr h).1 (copyDefaults cfg.hdr h).2 own).1 k with
     | none =>
       rw [hl] at hs
       have : ownVals own k = [] := by
@@ -621,11 +680,14 @@ theorem applyOwn_merge (cfg : Cfg) (h : Heap) (wf : WfDefaults cfg h) (own : Lis
         | nil => rfl
         | cons a b => rw [ho] at hs; simp at hs
       simp [this]
-    | some s =>
+    | some s' =>
       rw [hl] at hs hv
       simp only [Option.getD_some, dview, hd, List.nil_append] at hv
       cases ho : ownVals own k with
       | nil => rw [ho] at hs; simp at hs
       | cons a b => simp only [Option.map_some, Option.map_none, hv, ho]
+
+theorem built_extends (cfg : Cfg) (h : Heap) (own : List (Bytes × Bytes)) : Extends h (built cfg h own).2 :=
+  (applyOwn_inv h own _ _ (copyDefaults_callInv cfg.hdr h)).1.ext
 
 end Vegeta.Proofs.HTTPHeap
